@@ -512,8 +512,10 @@ def main(argv=None):
         ev["coverage"]["notes"].append("run with --no-build: proofs not re-checked in this run")
         ev["coverage"]["obligations"] = max(1, len(entry.get("theorems", [])))
         ev["coverage"]["discharged"] = 0
-    os.makedirs(os.path.join(ROOT, "evidence"), exist_ok=True)
-    with open(os.path.join(ROOT, "evidence", f"{prop}.json"), "w") as f:
+    # runs against a tree other than /repo (seeded-change tests) keep their evidence apart
+    evdir = os.environ.get("VERIF_EVIDENCE_DIR") or os.path.join(ROOT, "evidence")
+    os.makedirs(evdir, exist_ok=True)
+    with open(os.path.join(evdir, f"{prop}.json"), "w") as f:
         json.dump(ev, f, indent=1, sort_keys=True, default=str)
     if infra and not n_viol:
         print(f"INFRA-ERROR property={prop} correspondence harness crashed (see stderr)")
